@@ -132,11 +132,14 @@ class NotifyOracle:
 
     def value_ok(self, ev, payload, T):
         hist = self.values.get(ev, [])
-        # values the event had at some time in [T - Lmax, T]
+        # the value the event has when the datagram is built and sent (one synchronous step): the values it had in the
+        # instant of the transmission (an update in that very instant - or inside a busy period that ends there - may
+        # fall on either side), not a value read earlier, before the address lookup
+        lo = fire_start(self.busy, T) - RES
         ok = []
         for i, (t, v) in enumerate(hist):
             t_end = hist[i + 1][0] if i + 1 < len(hist) else float("inf")
-            if t <= T + RES and t_end >= self.early(T) - RES:
+            if t <= T + RES and t_end >= lo:
                 ok.append(v)
         return payload in ok
 
